@@ -991,16 +991,18 @@ def make_lattice_jobs(ck, rng):
 
 def make_rrt_jobs(ck, rng):
     jobs = []
-    n = 28 if ck.tier == "quick" else 240
+    n = 28 if ck.tier == "quick" else 160
     for i in range(n):
         r = rng.fork("rrt%d" % i)
         obj = "work" if i % 4 == 3 else "len"            # work: isSymmetric() == false, the recompute branch of the rewiring
         env = [0, 1, 2, 3, 4, 5, 5][i % 7]
         dim = 3 if i % 5 == 4 else 2
         thr = r.choice(["def", "def", "inf", f2bits(r.choice([1.2, 1.4, 1.7, 2.5]))])
-        budget = r.choice([60, 150, 300, 500]) if ck.tier == "quick" else r.choice([100, 300, 600, 1200, 2000])
+        # the model driver sorts the whole tree by distance in every pass (cubic overall): keep runs below ~2000 passes
+        budget = r.choice([60, 150, 300, 500]) if ck.tier == "quick" else r.choice([100, 300, 600, 1000])
+        solves = r.choice([1, 2, 3]) if budget < 600 else r.choice([1, 2])
         jobs.append({"obj": obj, "env": env, "dim": dim, "seed": r.range(1, 10 ** 6), "lseed": r.range(1, 10 ** 6), "budget": budget,
-                     "solves": r.choice([1, 2, 3]), "gthr": f2bits(r.choice([0.05, 0.05, 0.1, 0.02])), "thr": thr})
+                     "solves": solves, "gthr": f2bits(r.choice([0.05, 0.05, 0.1, 0.02])), "thr": thr})
     return jobs
 
 
@@ -1127,6 +1129,11 @@ def judge_rrt(ck, hbin, jobs):
             if ln == "tree":
                 ck.count("rrt-motions-final", int(o.split()[0][2:]))
         ck.sample({"rrt": rrt_line(job), "info": info[:3]}, limit=12)
+        if rc == "timeout" or (script and not model):
+            # harness or model driver did not finish in time: no verdict (infrastructure), never a violation
+            ck.count("rrt-timeout(no verdict)")
+            ck.notes.append("RRT* lock-step run without verdict (timeout): " + rrt_line(job)[:120])
+            continue
         fails = oracle_rrt(job, script, impl) if script else [("rrt-crash", "no output")]
         for l in info:
             if l.startswith("edges="):
